@@ -920,6 +920,19 @@ impl CallData {
     }
 }
 
+/// `a ^ b` for an exponent of any size, `None` on overflow.
+pub(crate) fn checked_pow_int(a: AbraInt, b: AbraInt) -> Option<AbraInt> {
+    if b > u32::MAX as AbraInt {
+        // checked_pow takes a u32 exponent; beyond that only 0, 1 and -1 do not overflow
+        return match a {
+            0 | 1 => Some(a),
+            -1 => Some(if b % 2 == 0 { 1 } else { -1 }),
+            _ => None,
+        };
+    }
+    a.checked_pow(b as u32)
+}
+
 // Value is 16 bytes
 // While this wastes memory, the extra space could be used down the line for
 // - builtin Vec3(f32,f32,f32) type
@@ -1761,7 +1774,7 @@ impl VmGreenThread {
             Instr::PowerInt(dest, reg1, reg2) => {
                 let b = self.load_offset_or_top(reg2).get_int(self);
                 let a = self.load_offset_or_top(reg1).get_int(self);
-                let Some(c) = a.checked_pow(b as u32) else {
+                let Some(c) = checked_pow_int(a, b) else {
                     self.error = Some(
                         self.make_error(VmErrorKind::IntegerOverflowUnderflow)
                             .into(),
@@ -1772,7 +1785,7 @@ impl VmGreenThread {
             }
             Instr::PowerIntImm(dest, reg1, imm) => {
                 let a = self.load_offset_or_top(reg1).get_int(self);
-                let Some(c) = a.checked_pow(self.shared.int_constants[imm as usize] as u32) else {
+                let Some(c) = checked_pow_int(a, self.shared.int_constants[imm as usize]) else {
                     self.error = Some(
                         self.make_error(VmErrorKind::IntegerOverflowUnderflow)
                             .into(),
